@@ -20,6 +20,8 @@ CLAIMS = {
             "SparseObject primitives and built-in x[idx]; traces validated against RevAbs", "4 C11"),
     "C14": ("model_checking", "AGM programs whose output is independent of the variable or depends on it only through a notrace primitive, every "
             "depth and mode; replayed and judged by TLC", "4 C14"),
+    "C17": ("model_checking", "AGM with a user-defined product primitive and a rule table {rule, None, missing}: arities 1..4 x differentiated subsets x "
+            "trace-level assignments x registration APIs; checkpoint == plain call for value and reverse-mode derivatives of order 1-2; replayed and judged by TLC", "4 C17"),
     "C19": ("model_checking", "AGM with faults at every instruction of the innermost function, in the backward pass and at trace exit, caught at every "
             "enclosing level, followed by canaries; replayed in one process per worker and judged by TLC", "4 C19"),
     "C20": ("model_checking", "AGM with 2-3 threads: all interleavings model-checked; TLC-exported schedules replayed with real threads under a strict "
